@@ -209,6 +209,14 @@ pub fn run(t: &[&str]) -> String {
             let s = String::from_utf8(unhex(t[1])).unwrap();
             std_result(Decimal256::from_str(&s).map(|d| ok1(d.0)))
         }
+        "u_rt_back" => std_result(Uint256::from_str(&uint256(t[1]).to_string()).map(ok1)),
+        "d_rt_back" => std_result(Decimal256::from_str(&dec256(t[1]).to_string()).map(|d| ok1(d.0))),
+        "u_rt_json" => std_result(
+            from_slice::<Uint256>(&to_vec(&uint256(t[1])).unwrap()).map(ok1),
+        ),
+        "d_rt_json" => std_result(
+            from_slice::<Decimal256>(&to_vec(&dec256(t[1])).unwrap()).map(|d| ok1(d.0)),
+        ),
         "u_json" => ok1(hex(&to_vec(&uint256(t[1])).unwrap())),
         "d_json" => ok1(hex(&to_vec(&dec256(t[1])).unwrap())),
         "u_unjson" => std_result(from_slice::<Uint256>(&unhex(t[1])).map(ok1)),
